@@ -10,6 +10,7 @@ ID = "C10"
 LEVEL = "exploration"
 RULE = ("Hypothesis: a set of 0-17 strings over an alphabet with double/single quote, backslash, newline, tab, comma, braces, "
         "percent, non-ASCII and astral characters, lengths 0-22 dense at 18-21, optionally one pseudo-typed or over-long string, "
+        "optionally with samples lacking the field at drawn places (optional position), "
         "spread over 1-4 samples at a scalar / list-element / dict-value position x max_literals 0..16 x 5 frameworks x default / "
         "full string registry; plus the full grid (count 0..17) x (max 0..16) x 5 frameworks with fixed short strings "
         "(1530 cases, enumerated completely in both tiers). Reference: independent classification of the observed strings "
@@ -59,8 +60,10 @@ def cases(draw, tier="quick"):
         if len(set(strings)) == len(strings):
             return {"strings": strings, "assign": [0] * len(ts) + [1], "nsamples": 2, "position": draw(st.sampled_from(["list", "dict"])),
                     "dup": False, "opts": opts}
+    absent = draw(st.sampled_from([[], [], [0], [1], [0, 2]])) if strings else []
     return {"strings": strings, "assign": assign, "nsamples": nsamples, "position": position, "dup": dup, "opts": opts,
-            "inner": draw(st.sampled_from([False, False, True])), "second_position": draw(st.sampled_from([False, True]))}
+            "inner": draw(st.sampled_from([False, False, True])), "second_position": draw(st.sampled_from([False, True])),
+            "absent": absent}
 
 
 def grid_cases(tier):
@@ -95,6 +98,9 @@ def build_samples(case):
         # another position of the same model sees only the first string: its Literal must not pick up the others
         for smp in samples:
             smp["h2"] = strings[0]
+    for at in case.get("absent") or []:
+        # samples without the field, at drawn places of the sample list: the position is optional from there on
+        samples.insert(min(at, len(samples)), {"g": 2, "h2": strings[0]} if case.get("second_position") and strings else {"g": 2})
     if case.get("inner"):
         # the position sits in a non-root model and the nested layout is rendered (nested class bodies are re-indented)
         samples = [{"o": s, "h": i} for i, s in enumerate(samples)]
@@ -110,6 +116,8 @@ def valid(case):
         if not all(isinstance(a, int) and a >= 0 for a in case["assign"]) or not (1 <= case["nsamples"] <= 20):
             return False
         if case["position"] not in ("scalar", "list", "dict") or not isinstance(case.get("inner", False), bool):
+            return False
+        if not all(isinstance(a, int) and a >= 0 for a in case.get("absent") or []):
             return False
         if any("\ud800" <= ch <= "\udfff" for s in case["strings"] for ch in s):
             return False
@@ -201,6 +209,9 @@ def check(case):
         exp = typing.List[comp if comp is not None else typing.Any]
     else:
         exp = typing.Dict[str, comp if comp is not None else typing.Any]
+    if case.get("absent") and any("f" in (smp["o"] if inner else smp) for smp in samples):
+        r.label("optional-position")
+        exp = typing.Optional[exp]
     got = hints.get("f")
     if got is None and "f" not in hints:
         r.fail("field-missing", src)
